@@ -1,5 +1,6 @@
 import Ts.Model
 import Ts.Resolve
+import Ts.Cycle
 namespace TsDrv
 open Ts
 
@@ -18,6 +19,11 @@ partial def loop (h : IO.FS.Stream) (g : G) : IO Unit := do
     | some (L, ok) => IO.println s!"{ok} {L}"
     | none => IO.println "panic"
     loop h g     -- the harness sorts a copy
+  | ["cycle", seed, ans] =>
+    -- ans: the list FindCycle returned (observed choice), validated against the specification
+    let l := if ans = "-" then [] else (ans.splitOn ",").filterMap (·.toNat?)
+    IO.println (if g.cycleAnswerOK seed.toNat! l then "ok" else "bad")
+    loop h g
   | "res" :: its =>
     let pl := fun (s : String) => if s = "" then [] else (s.splitOn ",").filterMap (·.toNat?)
     let items := its.filterMap fun s => match s.splitOn ":" with
